@@ -50,6 +50,8 @@ VARIANTS = [
 ''', new="")]),
     dict(id="c07-dropped-rows-not-appended", property="C07", kind="break", expect_rule="R07.3", file=D,
          old="df_eval = pd.concat([df_eval, dropped_rows])", new="df_eval = pd.concat([df_eval])"),
+    dict(id="c07-billing-observed-from-unmasked-input", property="C07", kind="break", expect_rule="R07.4", file="opendsm/eemeter/models/billing/model.py",
+         old='                observed = df_res["observed"].resample(agg).sum()', new='                observed = df["observed"].resample(agg).sum()'),
     dict(id="c07-benign-rename-local", property="C07", kind="benign", file=D, count=2,
          old="df_model_prediction", new="df_pred_all"),
     dict(id="c07-benign-explicit-left", property="C07", kind="benign", file=D,
